@@ -36,6 +36,10 @@ ME12 == <<1, 2>>
 ME22 == <<2, 2>>
 ME111 == <<1, 1, 1>>
 ME211 == <<2, 1, 1>>
+ME1111 == <<1, 1, 1, 1>>
+ME2111 == <<2, 1, 1, 1>>
+ME11111 == <<1, 1, 1, 1, 1>>
+SmallPaths == {"/a", "/a/b", "/e"}     \* cfg: Paths <- SmallPaths for the deep (4-5 layer) families
 
 Root == "/"
 Paths == {"/a", "/a/b", "/a/b/c", "/a/d", "/e"}
@@ -204,7 +208,7 @@ WalkAgreesOrKnown   == Complete => (\A i \in 1..Len(img) : WalkView(Trees(Eff(im
 SanityDisagree == ~(Complete /\ \E i \in 1..Len(img) : LookupView(Trees(Eff(img))[i]) # Overlay(Eff(img), i))
 SanityWhiteout == ~(Complete /\ Len(img) = 2 /\ Devs(Eff(img)) = {} /\ Overlay(Eff(img), 2) # Overlay(Eff(img), 1) /\ \E p \in Paths : Overlay(Eff(img), 1)[p] # None /\ Overlay(Eff(img), 2)[p] = None)
 
-ViewSeq(v) == [k \in 1..Len(POrder) |-> v[POrder[k]]]
+ViewSeq(v) == [k \in 1..Len(POrder) |-> IF POrder[k] \in Paths THEN v[POrder[k]] ELSE None]
 NoOversizeVisible == Complete => \A i \in 1..Len(img), p \in Paths :
                         LET k == LookupView(Trees(Eff(img))[i])[p] IN ~(Limit > 0 /\ ((k = "f1" /\ 1 >= Limit) \/ (k = "f2" /\ 2 >= Limit)))
 Case == [layers |-> img, limit |-> Limit,
